@@ -20,6 +20,11 @@ ASSUMPTIONS = [
     "scale-equivariant (ShiftScale is model-checked)",
     "VarNonNeg and MeanInRange are required of the implementation's own values exactly (no tolerance)",
     "recurrence_relation_m is internal and not compared",
+    "the values reach the summaries directly (DataSetSummary::update) and through PnLReturns::update (closed positions of "
+    "cost 1 whose realised PnL is the value, zeros included): `total` is judged as the running summary of all returns, "
+    "`losses` of the negative ones, pnl_raw as their sum",
+    "the running summaries are serialisable: a serde_json store/restore at any point (spec action Persist, a stutter) must "
+    "show the same figures and leave every later figure unchanged",
     "random decimal datasets (mantissa <= 1e6, 0..8 decimal places) are judged by the laws of the specification "
     "(order-freedom, VarNonNeg, MeanInRange, shift/scale, std_dev^2 = variance) with tolerance 1e-18 * max(1, max|x|)^p",
 ]
@@ -38,9 +43,13 @@ def judge(ctx, results, scns, label):
         scn = scns[r["scn"]]
         xs = [s["x"] for s in scn["vals"]]
         ev = r.get("event", {})
-        desc = "dataset %s fed to DataSetSummary::update in order %s at scale 1e%s: after update #%d (%s) %s; state before: %s [%s]" % (
-            xs, ev.get("order", xs), r.get("scale_e10", 0), r["step"] + 1, ev.get("update"), r["error"], json.dumps(r["pre"]), label)
-        ctx.violation(signature(r), desc, sc.replay_object(scn, r, ctx.seed))
+        desc = "dataset %s fed to %s in order %s at scale 1e%s (running state stored and restored %s): after update #%d (%s) %s; state before: %s [%s]" % (
+            xs, ev.get("route", "DataSetSummary::update"), ev.get("order", xs), r.get("scale_e10", 0), ev.get("store_restore", "-"),
+            r["step"] + 1, ev.get("update"), r["error"], json.dumps(r["pre"]), label)
+        rp = sc.replay_object(scn, r, ctx.seed)
+        if "persist_mode" in r:
+            rp["scenario"]["persist_mode"] = r["persist_mode"]
+        ctx.violation(signature(r), desc, rp)
     ctx.cov["scenarios_replayed"] += len(scns)
 
 
@@ -71,7 +80,7 @@ def corrupt(scn):
 def check(ctx):
     ctx.assumptions += ASSUMPTIONS
     ctx.build("c17")
-    ctx.tlc_actions("MC_" + MODULE, "MC_Stats_C17_small.cfg", ["AddValueAny"])
+    ctx.tlc_actions("MC_" + MODULE, "MC_Stats_C17_small.cfg", ["AddValueAny", "PersistAny"])
     ctx.tlc_mc("MC_" + MODULE, "MC_Stats_C17.cfg" if ctx.quick else "MC_Stats_C17_thorough.cfg", timeout=1500, coverage=False)
     # every sequence of the bounded model (all arrival orders of every multiset) ...
     p_t, scn_t = ctx.tlc_gen("Gen_" + MODULE, "GenT_Stats_C17.cfg" if ctx.quick else "GenT_Stats_C17_thorough.cfg", "all.ndjson", timeout=900)
@@ -80,9 +89,15 @@ def check(ctx):
     ctx.sample({"kind": "TLC enumerated dataset with batch statistics per prefix", "scenario": scn_t[len(scn_t) // 2]})
     ctx.sample({"kind": "TLC simulated dataset", "scenario": scn_r[0]})
     sc.selftest_binding(ctx, "c17", scn_r[0], corrupt, "mean")
+    arms = {}
     for label, p, scns in (("enumerated", p_t, scn_t), ("simulated", p_r, scn_r)):
-        _, results = sc.run_replay(ctx, "c17", p, label)
+        info, results = sc.run_replay(ctx, "c17", p, label)
+        for k, v in info.get("arm_hits", {}).items():
+            arms[k] = arms.get(k, 0) + v
         judge(ctx, results, scns, label)
+    if not ctx.violations and not all(arms.get(k) for k in ("store_restore", "runs_DataSetSummary_update", "runs_PnLReturns_update")):
+        raise vlib.ToolError("vacuous run: a route of the dataset statistics was never driven: %s" % arms)
+    ctx.cov["arm_hits"] = arms
     # arbitrary decimals of mixed magnitude (beyond the integer domain TLC enumerates), judged by the
     # laws Stats.tla states and TLC checks on the batch definitions
     run_laws(ctx, "laws", "random", "--seed", ctx.seed, "--steps", 5000 if ctx.quick else 200000)
